@@ -351,6 +351,87 @@ func c03Branches(c *core.Ctx) {
 	}
 }
 
+// c03Shared: trees in which ONE node object occurs in two places (a programmatic tree may reuse a
+// sub-expression, a statement or a block): both occurrences print like separate copies, in every context pair,
+// and a second print of the same tree gives the same text (a node must not remember where it was printed).
+func c03Shared(c *core.Ctx) {
+	leafs := []func() *gen.Node{
+		func() *gen.Node { return gen.Bi("+", gen.I("a"), gen.I("b")) },
+		func() *gen.Node { return gen.U("-", gen.I("a")) },
+		func() *gen.Node { return gen.As("=", gen.I("x"), gen.I("b")) },
+		func() *gen.Node { return gen.F("", nil, gen.Ret(gen.I("a"))) },
+		func() *gen.Node { return gen.Ob(gen.I("k"), gen.N("1")) },
+		func() *gen.Node { return gen.Po("++", gen.I("n")) },
+	}
+	n := 0
+	for li, lf := range leafs {
+		for _, op := range gen.BinOps {
+			for _, ctx := range []int{0, 1, 2, 3} {
+				n++
+				if !c.Mine(int64(n)) || c.Tick() {
+					continue
+				}
+				// the tree with separate copies (what the text must be) and the tree with one shared object
+				mkRoot := func(l, r *gen.Node) []*gen.Node {
+					switch ctx {
+					case 0:
+						return []*gen.Node{gen.Ex(gen.Bi(op, l, r))}
+					case 1:
+						return []*gen.Node{gen.Ex(gen.Ca(gen.I("f"), gen.U("-", l), gen.Bi(op, gen.I("c"), r)))}
+					case 2:
+						return []*gen.Node{gen.Let("v", gen.Ar(l, gen.Bi(op, r, gen.I("c"))))}
+					}
+					return []*gen.Node{gen.If(gen.I("c"), gen.Ex(l), gen.Ex(gen.Bi(op, gen.I("d"), r)))}
+				}
+				for ci, cfg := range c03Cfgs {
+					want := compileCfg(toXProgram(mkRoot(lf(), lf())), cfg)
+					x := toXProgram(mkRoot(lf(), lf()))
+					if !c03ShareOperand(x, ctx) {
+						continue
+					}
+					c.Inc("print_parse_roundtrips")
+					c.Inc("shared_node_prints")
+					got := compileCfg(x, cfg)
+					again := compileCfg(x, cfg)
+					k, d := "", ""
+					switch {
+					case got.Panic != "" && want.Panic == "":
+						k, d = "shared-node-panic", got.Panic
+					case got.Code != want.Code:
+						k, d = "shared-node-prints-differently", fmt.Sprintf("tree with one shared node object prints %q, the same tree with separate copies %q", got.Code, want.Code)
+					case again.Code != got.Code:
+						k, d = "second-print-differs", fmt.Sprintf("first print %q, second print of the same tree %q", got.Code, again.Code)
+					}
+					if k != "" && c.ShrinkOK("shared"+k) {
+						pl, _ := json.Marshal(c03Payload{Deep: []int{-5, li, ctx, ci}})
+						c.Violate(core.Violation{Kind: k, Config: cfg.String(), Case: fmt.Sprintf("shared %s under %s in context %d", gen.Shape(lf()), op, ctx), Detail: core.Short(d, 500), Payload: pl, Size: 8})
+					}
+				}
+			}
+		}
+	}
+}
+
+// c03ShareOperand makes the two operand positions built from the same leaf refer to ONE node object.
+func c03ShareOperand(x *ast.Program, ctx int) bool {
+	defer func() { recover() }()
+	switch ctx {
+	case 0:
+		b := x.Statements[0].(*ast.ExpressionStatement).Expression.(*ast.BinaryExpression)
+		b.Right = b.Left
+	case 1:
+		call := x.Statements[0].(*ast.ExpressionStatement).Expression.(*ast.CallExpression)
+		call.Arguments[1].(*ast.BinaryExpression).Right = call.Arguments[0].(*ast.UnaryExpression).Right
+	case 2:
+		arr := x.Statements[0].(*ast.LetStatement).Value.(*ast.ArrayLiteral)
+		arr.Elements[1].(*ast.BinaryExpression).Left = arr.Elements[0]
+	default:
+		ifs := x.Statements[0].(*ast.IfStatement)
+		ifs.ElseBranch.(*ast.ExpressionStatement).Expression.(*ast.BinaryExpression).Right = ifs.ThenBranch.(*ast.ExpressionStatement).Expression
+	}
+	return true
+}
+
 // c03Idents: names are a dimension of their own for a printer that decides where a blank is needed between
 // words: every identifier spelling of the family in every position a name takes in a programmatic tree.
 func c03Idents(c *core.Ctx) {
@@ -385,6 +466,7 @@ func c03Idents(c *core.Ctx) {
 }
 
 func c03Run(c *core.Ctx) {
+	c03Shared(c)
 	c03Idents(c)
 	c03Trivia(c)
 	c03Branches(c)
@@ -540,6 +622,10 @@ func c03Replay(pl json.RawMessage) (string, []core.Violation) {
 	var vs []core.Violation
 	if len(p.Deep) > 0 {
 		cx := core.NewCtx("C03", "thorough", 0, 0, 1, time.Now().Add(10*time.Minute))
+		if p.Deep[0] == -5 {
+			c03Shared(cx)
+			return "shared-node family re-run", cx.Violations()
+		}
 		if p.Deep[0] == -4 {
 			c03Idents(cx)
 			return "identifier family re-run", cx.Violations()
@@ -581,7 +667,7 @@ func c03Replay(pl json.RawMessage) (string, []core.Violation) {
 func init() {
 	core.Register(&core.PropSpec{
 		ID: "C03", Level: "exploration",
-		Rule:     "every chain of 0..3 nested (constructor, operand position) contexts — 4 prefix, 2 postfix, 13 binary x 2 sides, 3 assignment x 2 sides, callee, arguments, member object, index, array/object elements, function body, explicit group — around each of 9 leaf kinds, built programmatically as ast nodes WITHOUT grouping nodes (callee/object positions call-level-or-tighter, assignment/update targets identifier or member, as the property states); each tree placed as expression statement, let initialiser and call argument; printed compact / pretty / pretty without semicolons, re-parsed by xjs, shapes compared, and printed again (fixed point). quick: depth 3 over operator representatives (one per level and role); thorough: all operators. non-trivial = tree in which a correct printer must add parentheses Added families: multi-line literal leaves in 10 statement places incl. return; edited trees (print, replace the operator of the root or inner binary node in place for every operator triple, print again, compare with a freshly built tree); long programmatic chains (left-deep, right-deep, zig-zag over 7 operator cycles) of 9..129 (513 thorough) nodes; brace-less bodies: 11 body positions of if/else/while/for (nested too) x 5 simple statements x 12 expression endings (every class of final byte incl. the } of object literals and function expressions) x 4 followers x in/outside a function; identifier spellings (about 230) in 8 tree positions.",
+		Rule:     "every chain of 0..3 nested (constructor, operand position) contexts — 4 prefix, 2 postfix, 13 binary x 2 sides, 3 assignment x 2 sides, callee, arguments, member object, index, array/object elements, function body, explicit group — around each of 9 leaf kinds, built programmatically as ast nodes WITHOUT grouping nodes (callee/object positions call-level-or-tighter, assignment/update targets identifier or member, as the property states); each tree placed as expression statement, let initialiser and call argument; printed compact / pretty / pretty without semicolons, re-parsed by xjs, shapes compared, and printed again (fixed point). quick: depth 3 over operator representatives (one per level and role); thorough: all operators. non-trivial = tree in which a correct printer must add parentheses Added families: multi-line literal leaves in 10 statement places incl. return; edited trees (print, replace the operator of the root or inner binary node in place for every operator triple, print again, compare with a freshly built tree); long programmatic chains (left-deep, right-deep, zig-zag over 7 operator cycles) of 9..129 (513 thorough) nodes; brace-less bodies: 11 body positions of if/else/while/for (nested too) x 5 simple statements x 12 expression endings (every class of final byte incl. the } of object literals and function expressions) x 4 followers x in/outside a function; identifier spellings (about 230) in 8 tree positions; shared nodes: one node object in two operand positions (6 sub-trees x 13 operators x 4 context pairs) prints like separate copies, and the same tree prints the same twice.",
 		Assume:   []string{"xjs's own parser (checked against ECMAScript by C02) is the reader"},
 		QuickSec: 300, ThorSec: 1800, Run: c03Run, Replay: c03Replay,
 		Evals: "print_parse_roundtrips", Nontriv: "trees_needing_parentheses",
